@@ -87,6 +87,12 @@ def _lambdas(f: FunctionInfo) -> dict[str, ast.Lambda]:
             for t in n.targets:
                 if isinstance(t, ast.Name):
                     out[t.id] = n.value
+        elif isinstance(n, ast.FunctionDef) and n is not f.node and len(
+                n.body) >= 1 and isinstance(n.body[-1], ast.Return) and (
+                    n.body[-1].value is not None) and all(
+                        isinstance(s, ast.Expr) for s in n.body[:-1]):
+            # a nested one-expression helper is a named lambda
+            out[n.name] = ast.Lambda(args=n.args, body=n.body[-1].value)
     return out
 
 
@@ -205,7 +211,18 @@ def remap(ctx: Ctx, rep: Report) -> None:
             vvar = tgt.elts[1] if isinstance(tgt, ast.Tuple) else None
             # key component
             need_key = (kind == 'Q') or ('P' in kkind)
-            if need_key and kvar and not _transforms(key, kvar, lambdas, kind):
+            ktgt = tgt.elts[0] if isinstance(tgt, ast.Tuple) else None
+            if need_key and isinstance(ktgt, ast.Tuple) and all(
+                    isinstance(x, ast.Name) for x in ktgt.elts):
+                # `for (a, b), count in ...`: every component of the
+                # unpacked key is renumbered somewhere in the new key
+                parts_ = [x for x in ast.walk(key)
+                          if isinstance(x, (ast.Subscript, ast.Call))]
+                if not all(any(_transforms(x, a.id, lambdas, kind)
+                               for x in parts_) for a in ktgt.elts):
+                    problems.append(f'key `{norm(key)}` is not renumbered')
+            elif need_key and kvar and not _transforms(
+                    key, kvar, lambdas, kind):
                 problems.append(f'key `{norm(key)}` is not renumbered')
             # value component
             if view in ('_front', '_rear'):
@@ -297,6 +314,21 @@ def _dag_value(val, vvar, lambdas, kind) -> list[str]:
     if not (isinstance(val, ast.Tuple) and len(val.elts) == 2):
         return ['the value is not a (prev, next) pair of rebuilt maps']
     for which, e in zip(('prev', 'next'), val.elts):
+        if isinstance(e, ast.Call) and isinstance(
+                e.func, ast.Name) and e.func.id in lambdas and len(
+                    e.args) == 1 and len(
+                        lambdas[e.func.id].args.args) == 1:
+            # a local helper applied to one pointer map: read its body with
+            # the formal replaced by the argument
+            import copy as _copy
+            lam = lambdas[e.func.id]
+            formal = lam.args.args[0].arg
+            actual = e.args[0]
+
+            class _Sub(ast.NodeTransformer):
+                def visit_Name(self, n: ast.Name) -> ast.AST:
+                    return _copy.deepcopy(actual) if n.id == formal else n
+            e = _Sub().visit(_copy.deepcopy(lam.body))
         parts = _comp_parts(e)
         if parts is None:
             out.append(f'{which} map is not rebuilt')
